@@ -66,6 +66,10 @@ type FS struct {
 	// Fired counts injected faults by kind.
 	Fired map[string]int64
 
+	// Hook, when set, runs right after every file-system call of the simulated program (op: open, stat, read, seek,
+	// close), before the call returns: the world can let "another process" act between two system calls of rare.
+	Hook func(op, path string)
+
 	// Virtual file identity (what os.SameFile compares). Whether the kernel hands the inode number of a
 	// deleted, closed file to the next file created is a nondeterminism of the real file system that the
 	// simulator has to own: worlds register creations and removals, the tape decides about reuse, and
@@ -188,6 +192,11 @@ func (s *Sim) fsLog(op, path string, n int, off int64) {
 	if s.Opts.Mode == ModeFree {
 		return
 	}
+	defer func() {
+		if h := s.FS.Hook; h != nil {
+			h(op, path)
+		}
+	}()
 	g := -1
 	if x := s.me(); x != nil {
 		g = x.ID
